@@ -148,6 +148,10 @@ class EZSP:
         self.stop_ezsp()
         await self._gw.reset()
 
+        if self._gw is None:
+            # The NCP failed (or we were closed) while the reset was being acknowledged
+            raise EzspError("EZSP was closed during the reset")
+
         # Always switch back to protocol v4 after a reset
         self._switch_protocol_version(v4.EZSPv4.VERSION)
         self.start_ezsp()
